@@ -306,15 +306,18 @@ Fixpoint ditems (ap:list string) (tn:string) (items:list titem) (fields:list (st
 
 Definition ty_attrs (t:ty) : attrs := match t with Ty _ _ _ a _ => a | TyNil => [] end.
 Definition is_pk (a:attr) : bool := match a with AS s => String.eqb s "pk" | _ => false end.
-(* ExitTable: the primary key is recomputed from the fields of THIS block that carry ~pk *)
-Definition pks_of (fields:list (string * ty)) (names:list string) : list string :=
-  flat_map (fun n => match aget n fields with
-                     | Some t => match aget patterns (ty_attrs t) with
-                                 | Some (AA elts) => map (fun _ => n) (filter is_pk elts)
-                                 | _ => []
-                                 end
-                     | None => []
-                     end) names.
+(* ExitTable (since d001b2b): start from the key the relation already has and append the ~pk fields of THIS block
+   that are not yet part of it (a field tagged twice, or re-declared, is listed once) *)
+Definition add_pks (fields:list (string * ty)) (names:list string) (pk0:list string) : list string :=
+  fold_left (fun pks n =>
+     match aget n fields with
+     | Some t => match aget patterns (ty_attrs t) with
+                 | Some (AA elts) =>
+                     fold_left (fun pks a => if is_pk a && negb (existsb (String.eqb n) pks) then pks ++ [n] else pks) elts pks
+                 | _ => pks
+                 end
+     | None => pks
+     end) names pk0.
 
 Definition dtable (ap:list string) (a:app) (table:bool) (n:string) (es:list entry) (whatever:bool) (items:list titem) : option app :=
   let existing := aget n (a_types a) in
@@ -330,7 +333,7 @@ Definition dtable (ap:list string) (a:app) (table:bool) (n:string) (es:list entr
   match ditems ap n items fields0 at1 [] with
   | None => None
   | Some (fields, at2, names) =>
-      let pk := match pks_of fields names with [] => pk0 | l => l end in
+      let pk := add_pks fields names pk0 in
       let k := if whatever then KUnset
                else if negb known then match existing with Some (Ty k0 _ _ _ _) => k0 | _ => KUnset end
                else if isrel then KRel fields pk else KTuple fields in
